@@ -4,7 +4,13 @@ The harness runs the REAL cluster IPAM controller (ReconcileNode) and the REAL d
 (eni.CRDV2 multiIP / Release / syncNodeRuntime / syncDeletedPods, daemon.cleanRuntimeNode) in one process over a
 fake API server and a fake cloud; TLC judges every recorded trace against Ipam.tla with Enforce = {property}.
 Environment classes: C02 is quantified over drift and partially bound initial records as well (VERIF_IPAM_ENV=all),
-C03 / C08 are not (clean)."""
+C03 / C08 are not (clean).
+
+Self-test aids (never set by ./check or the manifest commands; default: strict):
+  VERIF_IPAM_KNOWN=label,label   set aside rejections carrying these informational clause labels (used only to run the mutants
+                                 while a genuine finding of the unchanged tree is neither fixed nor registered as known finding)
+  VERIF_IPAM_SKIP=family,...     replace the named directed scenario families (lifecycle, resandbox, shrink, faulty, rollback,
+                                 rdma, gcstale) by the plain random family."""
 import json, os, concurrent.futures
 from vlib import *
 import tracecheck as tc
